@@ -98,3 +98,53 @@ def simulateF (n per burst : Nat) (delay : Nat → Nat) (failing : Nat → Bool)
     ((submitted.filter (fun j => !failing j)).map (fun j => (jobResult n per j).count)).sum)
 
 end Pyndl
+
+namespace Pyndl
+
+/-! ### the submit loop as a STEP semantics (preprocess.py:843-878)
+
+One `LoopState` per pass through `while True`: the tick `now`, the index `ii`
+of the job submitted next and the jobs submitted so far with the tick at which
+each completes (`delay`, the completion oracle).  `loopStep` is one pass:
+`pool.apply_async` raises `ValueError('Pool not running')` — the `break` — iff
+the callback of a submitted job whose result closes the pool ran strictly
+before this tick (a submission AT the closing tick still goes through, the
+worst case `simulate` counts too); otherwise job `ii` is submitted and, after
+every `burst = 4 · n_jobs` submissions, the thread polls `result.ready()` of
+the job submitted last (at least one tick).  `runLoop` iterates it with fuel;
+`none` = fuel exhausted (the loop did not end within `fuel` passes).
+`PyndlProofs/SubmitLoop.lean` proves that `runLoop` ends for EVERY oracle with
+exactly the jobs / counts of the closed form `simulate`. -/
+
+structure LoopState where
+  now : Nat
+  ii : Nat
+  /-- `(job, completion tick)`, most recent first -/
+  subs : List (Nat × Nat)
+deriving Repr, DecidableEq
+
+def poolClosed (n per : Nat) (s : LoopState) : Bool :=
+  s.subs.any (fun p => (jobResult n per p.1).closes && decide (p.2 < s.now))
+
+def loopStep (n per burst : Nat) (delay : Nat → Nat) (s : LoopState) : Option LoopState :=
+  if poolClosed n per s then none
+  else
+    some { now := if (s.ii + 1) % burst = 0 then max (s.now + 1) (s.now + delay s.ii) else s.now + 1,
+           ii := s.ii + 1,
+           subs := (s.ii, s.now + delay s.ii) :: s.subs }
+
+def runLoop (n per burst : Nat) (delay : Nat → Nat) : Nat → LoopState → Option LoopState
+  | 0, _ => none
+  | fuel + 1, s =>
+    match loopStep n per burst delay s with
+    | none => some s
+    | some s' => runLoop n per burst delay fuel s'
+
+def loopInit : LoopState := ⟨0, 0, []⟩
+
+/-- `number_events` after the join: every submitted job completes and its
+    callback adds its count -/
+def loopCount (n per : Nat) (s : LoopState) : Nat :=
+  (s.subs.map (fun p => (jobResult n per p.1).count)).sum
+
+end Pyndl
